@@ -43,7 +43,9 @@ CONSTANTS Coords,     \* lattice coordinates of finite faces (half units)
           Mode, Alg, MaxDepth,
           LeafKind,   \* "boxes": interior = exterior;  "blobs": every interior inside the exterior
           WithSemi,   \* leaves / clip starts may be semi-infinite
-          Radii       \* clip mode: radii of spheres and cylinders
+          Radii,      \* clip mode: radii of spheres and cylinders
+          Margin,     \* lattice points reach Margin beyond the extreme coordinates
+          ProbeOdd    \* TRUE: lattice points only at odd coordinates (faces at even ones: no point on a face)
 
 VARIABLES phase,      \* "init" | "chain" | "done" | "pair" | "clip"
           z, R,       \* chain: current zone and the exact region it must represent
@@ -62,7 +64,7 @@ MaxOf(S) == CHOOSE x \in S : \A y \in S : x >= y
 (* the lattice *)
 Pad == <<PadLo, PadHi>>
 PadPoint == IF Pad[1] = -INF THEN 0 ELSE Pad[1] + 1
-PointCoords == (MinOf(Coords) - 1)..(MaxOf(Coords) + 1)
+PointCoords == {c \in (MinOf(Coords) - Margin)..(MaxOf(Coords) + Margin) : ~ProbeOdd \/ c % 2 = 1}
 U == {[a \in Axes |-> IF a <= Dims THEN f[a] ELSE PadPoint] : f \in [1..Dims -> PointCoords]}
 
 \* every interval with a lower face in Coords or -INF and an upper face in Coords or +INF,
@@ -244,16 +246,36 @@ GenChainSeq == SetToSeq([start : {"inf", "null"}, moves : [1..MaxDepth -> GenMov
 GenClipMoves == [sense : {"in", "out"}, s : Surfaces]
 GenClipSeq == SetToSeq(UNION {[1..n -> GenClipMoves] : n \in 1..MaxDepth})
 
+(* unit mode: object trees over box solids, built for real through UnitProto / InputBuilder *)
+\* (one record shape for every node: TLC cannot compare records with different fields)
+UnitLeaves == {[k |-> "box", lo |-> b.lo, hi |-> b.hi, c |-> <<>>] : b \in {bb \in LeafBoxes : ~IsDegenerate(bb)}}
+RECURSIVE TreesUpTo(_)
+TreesUpTo(n) ==
+  IF n = 0 THEN UnitLeaves
+  ELSE LET T == TreesUpTo(n - 1) IN
+       T \cup {[k |-> "not", lo |-> <<>>, hi |-> <<>>, c |-> <<t>>] : t \in T}
+         \cup {[k |-> op, lo |-> <<>>, hi |-> <<>>, c |-> <<t1, t2>>] : op \in {"and", "or"}, t1 \in T, t2 \in T}
+GenUnitSeq == SetToSeq(TreesUpTo(MaxDepth))
+UnitBoundary ==
+  [k |-> "box", c |-> <<>>,
+   lo |-> [a \in Axes |-> IF a <= Dims THEN MinOf(Coords) - 2 ELSE PadLo - 2],
+   hi |-> [a \in Axes |-> IF a <= Dims THEN MaxOf(Coords) + 2 ELSE PadHi + 2]]
+
 GenRecords ==
-  IF Mode = "gen_pairs"
-  THEN <<[kind |-> "pairs", pts |-> PointSeq, boxes |-> GenBoxSeq, zones |-> GenZoneSeq]>>
+  IF Mode = "gen_units"
+  THEN <<[kind |-> "units", pts |-> PointSeq, boundary |-> UnitBoundary]>>
+       \o [i \in DOMAIN GenUnitSeq |-> [vols |-> <<GenUnitSeq[i]>>]]
+  ELSE IF Mode = "gen_pairs"
+  THEN <<[kind |-> "pairs", pts |-> PointSeq, boxes |-> GenBoxSeq, zones |-> GenZoneSeq, dims |-> Dims,
+          mutpos |-> SetToSortSeq(PointCoords, LAMBDA i, j : i <= j)]>>
   ELSE IF Mode = "gen_chains"
   THEN <<[kind |-> "chains", pts |-> PointSeq,
           leaves |-> [i \in DOMAIN GenLeafSeq |-> [z |-> GenLeafSeq[i].z, reg |-> RegIdx(GenLeafSeq[i].reg)]]]>>
        \o [i \in DOMAIN GenChainSeq |-> GenChainSeq[i]]
   ELSE <<[kind |-> "clips", pts |-> PointSeq]>>
        \o [i \in DOMAIN GenClipSeq |-> [clips |-> GenClipSeq[i]]]
-GenCount == IF Mode = "gen_pairs" THEN Len(GenZoneSeq)
+GenCount == IF Mode = "gen_units" THEN Len(GenUnitSeq)
+            ELSE IF Mode = "gen_pairs" THEN Len(GenZoneSeq)
             ELSE IF Mode = "gen_chains" THEN Len(GenChainSeq) ELSE Len(GenClipSeq)
 GenInit ==
   /\ ndJsonSerialize(IOEnv.OUT, GenRecords)
